@@ -40,8 +40,9 @@ CLAIMED = {
          "intersecting_patches / select_next_patches answers are compared with the specification's; model and random "
          "extension loops run on the real client with a mock patch server and each round is validated by IFTTrace.",
     note="Trusted: TLC, the transcription of the W3C text (not available offline; follows the repository's doc "
-         "comments), the harness's mapping-table encoder and mock patch server. Format 2 tables only, one axis, "
-         "<= 8 code point atoms. Cross-table ties between equally ordered candidates are accepted either way.",
+         "comments), the harness's mapping-table encoder and mock patch server. Format 2 tables in IFT.tla (two design axes for "
+         "glyph keyed entries, one for invalidating ones), format 1 glyph / feature maps in IFT1.tla (incl. feature maps beyond "
+         "16384 entry map records); <= 8 code point atoms. Cross-table ties between equally ordered candidates are accepted either way.",
     technique="TLA+ spec of IFT selection/extension checked by TLC (safety + liveness); TLC-enumerated cases replayed on the client; trace validation of real extension loops",
     design="4/C19"),
  "C18": dict(
@@ -193,10 +194,12 @@ CLAIMED = {
          "replayed: the damaged table is read and walked again (budgeted), re-read from an odd address on another thread "
          "with the same digest, and the lookup helpers / glyph loading are driven on the damaged font. Hand-written decoders "
          "have hostile-input models of their own whose cases are replayed: cmap 4 / 12 iterators (CmapIter), packed deltas "
-         "(PackedHostile), (chained) context lookup closure and range coverage (ContextClosure), the CFF INDEX (Index). "
+         "(PackedHostile), (chained) context lookup closure, range coverage and Device tables (ContextClosure), the CFF INDEX "
+         "(Index), simple glyph point data in its OpenType and as-written readings (SimpleGlyph), and the charstring evaluator on "
+         "Charstring.tla's program family. "
          "Exploration, not proof: tables are reached through the corpus instances of each shape.",
     note="Trusted: TLC; the traversal API as the generic walker (it calls every generated getter); panics are caught as "
-         "data. Not covered: table kinds absent from the corpus; CFF/CFF2 beyond INDEX reading, charstring evaluation (C02) and glyph loading.",
+         "data. Not covered: table kinds absent from the corpus; CFF/CFF2 beyond INDEX reading, charstring evaluation (verdicts judged under C02) and glyph loading.",
     technique="TLA+ read-protocol model (theorem + rejected mutants); trace validation of recorded cursor sessions; spec-derived boundary mutations replayed on the readers",
     design="4/C01"),
  "C02": dict(
@@ -208,7 +211,9 @@ CLAIMED = {
          "model-checked for bounded stacks, bounded work and termination over all short programs / small graphs; every "
          "explored program and graph (plus chains and diamond chains stretched to the real limits) is run by skrifa and must "
          "end in a value, an absence or a named error within a deadline, as must the public API driven over every corpus "
-         "font and damaged copies with hostile sizes, coordinates, engines, scratch buffers and glyph ids.",
+         "font and damaged copies with hostile sizes, coordinates, engines, scratch buffers and glyph ids. The charstring programs "
+         "(incl. a family that fills the hinter's 96-entry edge map) are also drawn as glyphs of synthetic CFF fonts through skrifa, "
+         "and the IFT child-entry relation is exercised as a chain of 300000 entries (stack exhaustion = violation).",
     note="Trusted: TLC, the bytecode assembler of the harness. Not covered by a model: autohinter, "
          "paint graphs (C13), IFT client (C18/C19). Outcome-class agreement with the models is reported, not required.",
     technique="TLA+ models of interpreter control flow and composite loading; TLC-enumerated programs/graphs replayed on skrifa; trace validation of outcomes; API drive with hostile arguments",
@@ -221,8 +226,8 @@ CLAIMED = {
          "boundary mutations ReadTrace.tla derives for every corpus table, the hostile-argument API drive (incl. the "
          "auto-hinter), writer round trips and corpus subsetting. Overflow / assertion panics are violations of this property; "
          "other findings are left to the property that owns them.",
-    note="Exploration: an overflow site no replayed input reaches is not reported. 12 sites found this way were repaired "
-         "(known_findings.json F16-F23, F26, F27).",
+    note="Exploration: an overflow site no replayed input reaches is not reported. The sites found this way were repaired "
+         "(known_findings.json, entries of property C20).",
     technique="strict-profile (overflow-checks + debug-assertions) replay of TLC-enumerated programs/graphs/mutations and corpus drives",
     design="4/C20"),
 }
